@@ -108,6 +108,21 @@ CHECKS = {
              "and the four class predicates on all integer games with values in {-1,0,1} on 2 and 3 players, random games on 4 and 5 players and crafted near-tolerance games "
              "are recorded from the real code; TLC compares each with SetOf/IdOf finite-set semantics and the textbook definitions.",
         note="transcription of pure functions into TLA+ with TLC as oracle; exhaustive for the stated n"),
+    "C19": dict(
+        level="model_checking", design="§5 C19", technique="TLC on MC_ResultsFile (all save sequences) + trace validation of real save_json/save/command runs with complete read-back after every call (Trace_Save)",
+        text="TLC explores all sequences of up to 5 saves over 3 names x 4 entries and checks that earlier entries never change, a repeated name is a no-op and a new name adds exactly "
+             "its entry; sequences of real saves (new and repeated names, odd names, matrices of random 2-D/3-D shapes with NaN, -0.0, subnormal, huge and infinite values, metadata with "
+             "Path, dates, numpy scalars, functions) are executed and after EVERY call data.json is read back through Output.from_file / get_outputs_from_file and compared by TLC with "
+             "Save(previous file, name, entry) on float bit-pattern tokens; solve / greedy / best_states are run in-process and the saved matrices must be the ones the evaluation or search produced.",
+        note="floats as bit-pattern tokens; metadata oracle stated in the driver; save() exercised with finite gaps and at least one revealed coalition"),
+    "C20": dict(
+        level="fault_enumeration", design="§5 C20", technique="fault injection at every file operation of a real save (process death and interrupting exception, forked children) judged by TLC (Trace_Crash) + TLC on the FS model running the OBSERVED operation sequence with a crash after every prefix",
+        text="For file histories with 0,1,3 (quick) / 0..6 (thorough) earlier runs x result sizes x new/repeated name, one uninterrupted real save is recorded as a program of file "
+             "operations; then one forked child per operation index and crash kind (os._exit: user-space buffers lost; KeyboardInterrupt: unwinds through `with`) runs the real save and dies "
+             "there, and the parent classifies the bytes of data.json: TLC demands previous-or-complete-new, parseable, earlier runs preserved for every injected fault. The observed program "
+             "is also run on the TLA+ file-system model, where TLC places death / interruption / spontaneous buffer flushes after every prefix (including points with no Python-level hook); "
+             "reference programs (in-place, temp-then-replace, replace-before-close, unlink-then-rename) self-test the model.",
+        note="process death only (no power loss / fsync semantics); leftover scratch files are allowed"),
 }
 
 NOT_YET = "check not built yet (build in progress; see DESIGN.md §5 for the plan)"
